@@ -106,6 +106,12 @@ func newWorker(histSize, recLimit int) (*worker, error) {
 			r.g3.Arrive(gateTimeout)
 		}
 	}
+	gb.RewritePosition = func(ch string, sp centrifuge.StreamPosition) centrifuge.StreamPosition {
+		if r := w.runner(ch); r != nil && r.noep {
+			sp.Epoch = "" // the broker has no stream meta yet (lagging replica): the subscription starts without an epoch
+		}
+		return sp
+	}
 	gb.Intercept = func(ch string, pub *centrifuge.Publication, sp centrifuge.StreamPosition, _ bool, _ *centrifuge.Publication) bool {
 		r := w.runner(ch)
 		if r == nil {
